@@ -167,7 +167,7 @@ def option_sets(text, refs_dir):
     chains = c13.chain_ids(entries)
     cfg = os.path.join(refs_dir, "variant.cfg")
     sets = {"default": [], "-d": ["-d"], "-k": ["-k"], "--protonate-all": ["--protonate-all"], "-q": ["-q"],
-            "--log-level DEBUG": ["--log-level", "DEBUG"],
+            "--log-level DEBUG": ["--log-level", "DEBUG"], "-g": ["-g", "2", "12", "2"],
             "-g/-w": ["-g", "0", "10", "0.5", "-w", "2", "8", "2"], "-p": ["-p", cfg],
             "-p2": ["-p", os.path.join(refs_dir, "variant2.cfg")]}
     if ids:
